@@ -437,6 +437,14 @@ func vRunTrigCase(c *vCase, prop string) {
 	r := c.R
 	nchan := 1 + r.Intn(4)
 	period := vPick(r, 10*time.Microsecond, 6400*time.Nanosecond, time.Millisecond, 1280*time.Nanosecond)
+	vFeedRate = 0
+	if vChance(r, 0.4) {
+		// a rate whose period is not a whole number of ns: block and record times go by the ns-rounded frame period
+		vFeedRate = vPick(r, 245000.0, 30000.0, 125e6/1024, 99999.7)
+		period = time.Duration(roundint(1e9 / vFeedRate))
+		c.Cov("fractional_ns_sample_period", 1)
+	}
+	defer func() { vFeedRate = 0 }()
 	npre, nsamp := vGenLengths(r)
 	firstFrame := FrameIndex(vPick(r, 0, 0, 17, 5000, 1<<40))
 	allowEMT := prop == "C01"
